@@ -157,17 +157,7 @@ namespace nmtools::utl
 
         /*constexpr*/ maybe& operator=(const maybe& other)
         {
-            if (other.has_value()) {
-                if constexpr (meta::is_copy_assignable_v<T>) {
-                    this->left = other.left;
-                } else {
-                    new(&this->left) T(other.left);
-                }
-                this->tag  = base::LEFT;
-            } else {
-                this->right = other.right;
-                this->tag  = base::RIGHT;
-            }
+            base::operator=(static_cast<const base&>(other));
             return *this;
         }
 
